@@ -11,18 +11,23 @@ package main
 import (
 	"crypto/sha256"
 	"encoding/binary"
+	"encoding/hex"
 	"encoding/json"
 	"errors"
+	"flag"
 	"fmt"
+	"math/big"
 	"os"
 	"path/filepath"
 	"sort"
+	"sync"
 	"time"
 
 	"github.com/btcsuite/btcd/btcec/v2"
 	"github.com/btcsuite/btcd/btcutil"
 	"github.com/btcsuite/btcd/btcutil/hdkeychain"
 	"github.com/btcsuite/btcd/chaincfg"
+	"github.com/btcsuite/btcd/txscript"
 	"github.com/btcsuite/btcwallet/waddrmgr"
 	"github.com/btcsuite/btcwallet/walletdb"
 	_ "github.com/btcsuite/btcwallet/walletdb/bdb"
@@ -55,6 +60,8 @@ type Op struct {
 	Fmt       string    `json:"fmt"`
 	Key       int       `json:"key"`
 	Script    int       `json:"script"`
+	SKind     string    `json:"skind,omitempty"` // script kind: "" = P2SH script, "wsh" = witness script, "tr" = taproot script
+	Secret    bool      `json:"secret,omitempty"`
 	Handle    int       `json:"handle"`
 }
 
@@ -67,11 +74,14 @@ type Input struct {
 
 // KeyRef names a key through the oracle.
 type KeyRef struct {
-	Root string      `json:"root"` // seed|xpub|imp|unknown
+	Root string      `json:"root"` // seed|xpub|imp|imppub|unknown
 	ID   uint64      `json:"id"`
 	Cn   uint32      `json:"cn"`
 	Path [][2]uint32 `json:"path"`
-	Alt  string      `json:"alt,omitempty"`
+	// Deviation is set (and Root is "unknown") when the key is not the one the
+	// specification assigns to any path but the one a wallet using the other
+	// hardened-derivation rule at the named step would make.
+	Deviation string `json:"deviation,omitempty"`
 }
 
 // AddrObs is everything read off one managed address.
@@ -88,18 +98,25 @@ type AddrObs struct {
 	Imported bool      `json:"imported"`
 	Priv     string    `json:"priv"` // ok|mismatch|err:<class>
 	Script   int       `json:"script"`
+	SKind    string    `json:"skind,omitempty"`
 	ScriptV  string    `json:"scriptv"` // ok|changed|err:<class>
+	// for the property oracle only (not compared with the model)
+	Pub        string `json:"pub,omitempty"`      // PubKey(), compressed, hex
+	Compressed bool   `json:"compressed"`         // Compressed()
+	AddrType   string `json:"addrtype,omitempty"` // AddrType() as a format name
+	Sign       string `json:"sign,omitempty"`     // ""|ok|<why the returned private key cannot sign for Address()>
 }
 
 // Result is the observable answer of one operation.
 type Result struct {
-	Kind   string    `json:"kind"` // ok|err|addrs|props|acct|key|script
+	Kind   string    `json:"kind"` // ok|err|addrs|props|acct|key|script|skipped
 	Err    string    `json:"err,omitempty"`
 	Addrs  []AddrObs `json:"addrs"`
 	Props  [2]uint32 `json:"props"`
 	Acct   uint32    `json:"acct"`
 	Key    *KeyRef   `json:"key,omitempty"`
 	Script int       `json:"script"`
+	SKind  string    `json:"skind,omitempty"`
 	Locked bool      `json:"locked"` // IsLocked() after the operation
 }
 
@@ -126,7 +143,13 @@ func material(tag string, id uint64) []byte {
 
 func passBytes(id int) []byte { return []byte(fmt.Sprintf("priv-pass-%d", id)) }
 
-var pubPass = []byte("public")
+// pubPassBytes: public passphrase number 0 is the one the wallet is created with.
+func pubPassBytes(id int) []byte {
+	if id == 0 {
+		return []byte("public")
+	}
+	return []byte(fmt.Sprintf("pub-pass-%d", id))
+}
 
 func scriptBytes(id int) []byte {
 	// OP_1 <8 bytes> OP_DROP : any byte string is accepted by ImportScript
@@ -170,21 +193,24 @@ func xpubChild(id int) uint32 { return uint32(id%5) + hdoracle.HardenedStart }
 const (
 	maxTableAcct  = 7
 	maxTableIndex = 47
+	maxRunCount   = 5000 // more addresses than this in one request are never actually derived
 )
 
 var tableBranches = []uint32{0, 1, 2}
 
 type oracleDB struct {
-	t       *hdoracle.Table
+	t       *hdoracle.Table // the keys the specification assigns to the paths of the cases
+	alt     *hdoracle.Table // diagnostic only: keys a wallet deviating from the rule table would make
 	masters map[uint64]*hdoracle.Key
-	acct    map[string]*hdoracle.Key // "seed/<id>/<p>/<c>/<a>" or "xpub/<id>"
-	zero    map[uint64]bool          // a seed with a leading-zero intermediate key
+	acct    map[string]*hdoracle.Key   // "seed/<id>/<p>/<c>/<a>" or "xpub/<id>"
+	div     map[uint64]map[string]bool // seed -> hardened steps with a leading-zero parent ("coin", "account0", ...)
 	done    map[string]bool
+	divMemo map[string]bool
 }
 
 func newOracleDB() *oracleDB {
-	return &oracleDB{t: hdoracle.NewTable(), masters: map[uint64]*hdoracle.Key{}, acct: map[string]*hdoracle.Key{},
-		zero: map[uint64]bool{}, done: map[string]bool{}}
+	return &oracleDB{t: hdoracle.NewTable(), alt: hdoracle.NewTable(), masters: map[uint64]*hdoracle.Key{},
+		acct: map[string]*hdoracle.Key{}, div: map[uint64]map[string]bool{}, done: map[string]bool{}, divMemo: map[string]bool{}}
 }
 
 func (o *oracleDB) master(seed uint64) *hdoracle.Key {
@@ -199,7 +225,24 @@ func (o *oracleDB) master(seed uint64) *hdoracle.Key {
 	return k
 }
 
-// ensureScope fills the table for every account 0..maxTableAcct of a scope.
+func (o *oracleDB) noteDiv(seed uint64, name string) {
+	if o.div[seed] == nil {
+		o.div[seed] = map[string]bool{}
+	}
+	o.div[seed][name] = true
+}
+
+func other(r hdoracle.Rule) hdoracle.Rule {
+	if r == hdoracle.Legacy {
+		return hdoracle.Standard
+	}
+	return hdoracle.Legacy
+}
+
+// ensureScope derives the account keys 0..maxTableAcct of a scope as
+// hdoracle.AccountKey (the rule table of spec.go) says and notes where the
+// seed has a leading-zero parent; the children of an account are tabled when
+// the account is first asked for (ensureAcct).
 func (o *oracleDB) ensureScope(seed uint64, scope [2]uint32) {
 	key := fmt.Sprintf("seed/%d/%d/%d", seed, scope[0], scope[1])
 	if o.done[key] {
@@ -207,40 +250,128 @@ func (o *oracleDB) ensureScope(seed uint64, scope [2]uint32) {
 	}
 	o.done[key] = true
 	for a := uint32(0); a <= maxTableAcct; a++ {
-		// what hdkeychain effectively does inside waddrmgr: the root key (NewMaster
-		// or parsed) still has 32 bytes -> standard; purpose key and, for account
-		// 0 (derived together with the scope), the coin-type key are used as
-		// derived in memory -> legacy; later accounts are derived from the parsed
-		// coin-type key -> standard.  The rules differ only below a private key
-		// with a leading zero byte.
-		rules := []hdoracle.Rule{hdoracle.Standard, hdoracle.Legacy, hdoracle.Standard}
-		if a == 0 {
-			rules[2] = hdoracle.Legacy
-		}
-		vs, err := hdoracle.HardenedPath(o.master(seed), []uint32{scope[0], scope[1], a}, rules)
+		ak, div, err := hdoracle.AccountKey(o.master(seed), scope[0], scope[1], a)
 		if err != nil {
 			panic(err)
 		}
-		prefix := []hdoracle.Step{{Index: scope[0], Hardened: true}, {Index: scope[1], Hardened: true}, {Index: a, Hardened: true}}
-		for i, v := range vs {
-			if i == 0 {
-				o.acct[fmt.Sprintf("%s/%d", key, a)] = v.Key
-			} else {
-				o.zero[seed] = true
-			}
-			if err := o.t.AddAccount("seed", seed, prefix, v.Key, v.Alt, tableBranches, maxTableIndex); err != nil {
-				panic(err)
-			}
+		o.acct[fmt.Sprintf("%s/%d", key, a)] = ak
+		for _, d := range div {
+			o.noteDiv(seed, divName(d, a))
 		}
 	}
 }
 
-func (o *oracleDB) seedAcct(seed uint64, scope [2]uint32, a uint32) *hdoracle.Key {
+func divName(d hdoracle.Divergence, a uint32) string {
+	if d.Depth == hdoracle.StepAccount {
+		if a == 0 {
+			return "account0"
+		}
+		return "account_later"
+	}
+	return hdoracle.StepName(d.Depth)
+}
+
+// ensureAcct tables branch/index 0..maxTableIndex of one seed-derived account
+// and, in the diagnostic table, the same range below every account key a
+// wallet would get by using the other rule where it matters.
+func (o *oracleDB) ensureAcct(seed uint64, scope [2]uint32, a uint32) {
 	o.ensureScope(seed, scope)
+	key := fmt.Sprintf("acct/%d/%d/%d/%d", seed, scope[0], scope[1], a)
+	if o.done[key] || a > maxTableAcct {
+		return
+	}
+	o.done[key] = true
+	ak, div, err := hdoracle.AccountKey(o.master(seed), scope[0], scope[1], a)
+	if err != nil {
+		panic(err)
+	}
+	prefix := []hdoracle.Step{{Index: scope[0], Hardened: true}, {Index: scope[1], Hardened: true}, {Index: a, Hardened: true}}
+	o.t.AddKey("seed", seed, prefix, ak, "")
+	if err := o.t.AddAccount("seed", seed, prefix, ak, "", tableBranches, maxTableIndex); err != nil {
+		panic(err)
+	}
+	spec := [3]hdoracle.Rule{hdoracle.WalletRule(0, scope[0]), hdoracle.WalletRule(1, scope[1]), hdoracle.WalletRule(2, a)}
+	for mask := 1; mask < 1<<uint(len(div)); mask++ {
+		rules, note := spec, ""
+		for bit, d := range div {
+			if mask>>uint(bit)&1 == 1 {
+				rules[d.Depth] = other(spec[d.Depth])
+				note += fmt.Sprintf("%s rule at the %s step (specified: %s) ", rules[d.Depth], hdoracle.StepName(d.Depth), spec[d.Depth])
+			}
+		}
+		vk, err := hdoracle.AccountKeyWith(o.master(seed), scope[0], scope[1], a, rules)
+		if err != nil {
+			continue
+		}
+		o.alt.AddKey("seed", seed, prefix, vk, note)
+		o.alt.AddAccount("seed", seed, prefix, vk, note, tableBranches, maxTableIndex)
+	}
+}
+
+func (o *oracleDB) seedAcct(seed uint64, scope [2]uint32, a uint32) *hdoracle.Key {
+	o.ensureAcct(seed, scope, a)
 	return o.acct[fmt.Sprintf("seed/%d/%d/%d/%d", seed, scope[0], scope[1], a)]
 }
 
-// xpub returns the (public-only) account key of imported xpub id.
+func stepOf(raw uint32) hdoracle.Step {
+	if raw >= hdoracle.HardenedStart {
+		return hdoracle.Step{Index: raw - hdoracle.HardenedStart, Hardened: true}
+	}
+	return hdoracle.Step{Index: raw}
+}
+
+// ensureChild registers the key branch/index (raw child numbers) of a
+// seed-derived account when it lies outside the range ensureScope covers
+// (hardened requests, large indices).  It is computed from the request alone.
+func (o *oracleDB) ensureChild(seed uint64, scope [2]uint32, a, branch, index uint32) {
+	if a > maxTableAcct {
+		return
+	}
+	key := fmt.Sprintf("child/%d/%d/%d/%d/%d/%d", seed, scope[0], scope[1], a, branch, index)
+	if o.done[key] {
+		return
+	}
+	o.done[key] = true
+	ak := o.seedAcct(seed, scope, a)
+	ck, div, err := hdoracle.AddressKey(ak, branch, index)
+	if err != nil {
+		return
+	}
+	prefix := []hdoracle.Step{{Index: scope[0], Hardened: true}, {Index: scope[1], Hardened: true}, {Index: a, Hardened: true},
+		stepOf(branch), stepOf(index)}
+	o.t.AddKey("seed", seed, prefix, ck, "")
+	for _, d := range div {
+		o.noteDiv(seed, hdoracle.StepName(d.Depth)+"_hardened")
+	}
+	if len(div) == 0 {
+		return
+	}
+	// the other rule at the branch and/or index step
+	for mask := 1; mask < 4; mask++ {
+		rb, ri := hdoracle.WalletRule(hdoracle.StepBranch, 0), hdoracle.WalletRule(hdoracle.StepIndex, 0)
+		note := ""
+		if mask&1 == 1 {
+			rb = other(rb)
+			note += rb.String() + " rule at the branch step "
+		}
+		if mask&2 == 2 {
+			ri = other(ri)
+			note += ri.String() + " rule at the index step "
+		}
+		bk, err := ak.Child(branch, rb)
+		if err != nil {
+			continue
+		}
+		vk, err := bk.Child(index, ri)
+		if err != nil {
+			continue
+		}
+		o.alt.AddKey("seed", seed, prefix, vk, note)
+	}
+}
+
+// xpub returns the (public-only) account key of imported xpub id: the account
+// key m/84'/0'/(id%5)' of an unrelated seed.
 func (o *oracleDB) xpub(id int) *hdoracle.Key {
 	key := fmt.Sprintf("xpub/%d", id)
 	if k, ok := o.acct[key]; ok {
@@ -250,38 +381,81 @@ func (o *oracleDB) xpub(id int) *hdoracle.Key {
 	if err != nil {
 		panic(err)
 	}
-	vs, err := hdoracle.HardenedPath(m, []uint32{84, 0, uint32(id % 5)},
-		[]hdoracle.Rule{hdoracle.Legacy, hdoracle.Legacy, hdoracle.Legacy})
+	ak, _, err := hdoracle.AccountKey(m, 84, 0, uint32(id%5))
 	if err != nil {
 		panic(err)
 	}
-	k := vs[0].Key.Neuter()
+	k := ak.Neuter()
 	o.acct[key] = k
+	o.t.AddKey("xpub", uint64(id), nil, k, "")
 	if err := o.t.AddAccount("xpub", uint64(id), nil, k, "", tableBranches, maxTableIndex); err != nil {
 		panic(err)
 	}
 	return k
 }
 
+// impCompressed: imported key number id comes as a compressed WIF unless
+// id%4 == 3 (then its WIF says "uncompressed public key").
+func impCompressed(id int) bool { return id%4 != 3 }
+
 func (o *oracleDB) impKey(id int) *hdoracle.Key {
 	key := fmt.Sprintf("imp/%d", id)
 	if k, ok := o.acct[key]; ok {
 		return k
 	}
-	priv, pub := btcec.PrivKeyFromBytes(material("impkey", uint64(id)))
-	k := &hdoracle.Key{Priv: priv.ToECDSA().D}
-	copy(k.Pub[:], pub.SerializeCompressed())
+	d := new(big.Int).SetBytes(material("impkey", uint64(id)))
+	k := &hdoracle.Key{Priv: d}
+	k.Pub = hdoracle.PubOfScalar(k.PrivBytes())
 	o.acct[key] = k
-	o.t.AddKey("imp", uint64(id), k)
+	o.t.AddKey("imp", uint64(id), nil, k, "")
 	return k
+}
+
+// impPub: public key number id that is imported WITHOUT its private key.
+func (o *oracleDB) impPub(id int) *hdoracle.Key {
+	key := fmt.Sprintf("imppub/%d", id)
+	if k, ok := o.acct[key]; ok {
+		return k
+	}
+	k := &hdoracle.Key{}
+	k.Pub = hdoracle.PubOfScalar(material("imppub", uint64(id)))
+	o.acct[key] = k
+	o.t.AddKey("imppub", uint64(id), nil, k, "")
+	return k
+}
+
+func (o *oracleDB) impPubSerialized(root string, id int) []byte {
+	if root == "imp" {
+		return o.impSerialized(id)
+	}
+	k := o.impPub(id)
+	return k.Pub[:]
+}
+
+// impSerialized is the public key of imported key id as its WIF serializes it.
+func (o *oracleDB) impSerialized(id int) []byte {
+	k := o.impKey(id)
+	if impCompressed(id) {
+		return k.Pub[:]
+	}
+	u, err := hdoracle.Uncompressed(k.Pub[:])
+	if err != nil {
+		panic(err)
+	}
+	return u
 }
 
 func (o *oracleDB) ref(pub33 []byte) (KeyRef, *hdoracle.Entry) {
 	e := o.t.Lookup(pub33)
 	if e == nil {
-		return KeyRef{Root: "unknown", Path: [][2]uint32{}}, nil
+		r := KeyRef{Root: "unknown", Path: [][2]uint32{}}
+		if d := o.alt.Lookup(pub33); d != nil {
+			// NOT a key of the specification: the note says which deviation makes it
+			r.Deviation = d.Note
+		}
+		return r, nil
 	}
-	r := KeyRef{Root: e.Root, ID: e.ID, Path: [][2]uint32{}, Alt: e.Alt}
+	r := KeyRef{Root: e.Root, ID: e.ID, Path: [][2]uint32{}}
 	if e.Root == "xpub" {
 		r.Cn = xpubChild(int(e.ID))
 	}
@@ -312,7 +486,7 @@ func tmpBase() string {
 	return ""
 }
 
-func createWallet(dir string, name string, seed uint64, pass int) (*wallet, error) {
+func createWallet(dir string, name string, seed uint64, pass, pubPass int, birthday time.Time) (*wallet, error) {
 	w := &wallet{dir: dir}
 	path := filepath.Join(dir, name)
 	os.Remove(path)
@@ -330,11 +504,11 @@ func createWallet(dir string, name string, seed uint64, pass int) (*wallet, erro
 		if err != nil {
 			return err
 		}
-		if err := waddrmgr.Create(ns, root, pubPass, passBytes(pass), params,
-			&waddrmgr.FastScryptOptions, time.Time{}); err != nil {
+		if err := waddrmgr.Create(ns, root, pubPassBytes(pubPass), passBytes(pass), params,
+			&waddrmgr.FastScryptOptions, birthday); err != nil {
 			return err
 		}
-		w.mgr, err = waddrmgr.Open(ns, pubPass, params)
+		w.mgr, err = waddrmgr.Open(ns, pubPassBytes(pubPass), params)
 		return err
 	})
 	if err != nil {
@@ -344,7 +518,7 @@ func createWallet(dir string, name string, seed uint64, pass int) (*wallet, erro
 	return w, nil
 }
 
-func (w *wallet) restart(name string) error {
+func (w *wallet) restart(name string, pubPass int) error {
 	w.mgr.Close()
 	if err := w.db.Close(); err != nil {
 		return err
@@ -356,7 +530,7 @@ func (w *wallet) restart(name string) error {
 	w.db = db
 	return walletdb.View(db, func(tx walletdb.ReadTx) error {
 		var err error
-		w.mgr, err = waddrmgr.Open(tx.ReadBucket(nsKey), pubPass, params)
+		w.mgr, err = waddrmgr.Open(tx.ReadBucket(nsKey), pubPassBytes(pubPass), params)
 		return err
 	})
 }
@@ -442,27 +616,37 @@ type handle struct {
 	ma     waddrmgr.ManagedAddress
 	origin string // the operation that produced the object
 	// what the property expects of it (from inputs and oracle only)
-	chain   bool
 	scope   [2]uint32
 	account uint32
 	impKey  int
 	script  int
-	kind    string // chain|impkey|script
+	skind   string
+	secret  bool
+	kind    string // chain|impkey|imppub|script
+}
+
+type scriptID struct {
+	id    int
+	skind string
 }
 
 type runner struct {
 	in      Input
 	o       *oracleDB
 	w       *wallet
+	pubPass int  // the public passphrase the file opens with
+	dead    bool // the wallet could not be reopened
 	handles []*handle
 	// bookkeeping of the property oracle (inputs + observations, no model)
 	schemas map[[2]uint32][2]string
 	accts   map[[2]uint32]map[uint32]*acctSpec
-	issued  map[string]uint32 // scope/acct/branch -> next expected index
-	issuer  map[string]string // scope/acct/branch/index -> operation that issued it in this process lifetime
-	addrOf  map[string]string // scope/acct/branch/index -> address string seen
-	scripts map[string]int    // P2SH address -> script id
-	bad     map[string]string // violation kind -> site
+	issued  map[string]uint32   // scope/acct/branch -> next expected index
+	issuer  map[string]string   // scope/acct/branch/index -> operation that issued it in this process lifetime
+	addrOf  map[string]string   // scope/acct/branch/index -> address string seen
+	impAddr map[string]string   // "<scope>/imp|imppub/<id>" -> address at import
+	scripts map[string]scriptID // script address -> script
+	secret  map[string]bool     // script address -> imported as secret
+	bad     map[string]string   // violation kind -> site
 	detail  []string
 	tags    map[string]bool
 	// situation tracking for tags
@@ -505,7 +689,31 @@ func (r *runner) acctKey(scope [2]uint32, a uint32) (*hdoracle.Key, *acctSpec) {
 	if sp.root == "xpub" {
 		return r.o.xpub(sp.xpub), sp
 	}
+	if a > maxTableAcct {
+		return nil, nil
+	}
 	return r.o.seedAcct(r.in.Seed, scope, a), sp
+}
+
+func scriptInternalKey(id int) [33]byte {
+	return hdoracle.PubOfScalar(material("tapkey", uint64(id)))
+}
+
+// scriptAddress: the address the property expects for an imported script.
+func scriptAddress(id int, skind string) string {
+	sb := scriptBytes(id)
+	switch skind {
+	case "wsh":
+		return hdoracle.WitnessScriptAddress(onet, sb)
+	case "tr":
+		ik := scriptInternalKey(id)
+		a, err := hdoracle.TaprootSingleLeafAddress(onet, ik[:], sb)
+		if err != nil {
+			panic(err)
+		}
+		return a
+	}
+	return hdoracle.ScriptHashAddress(onet, sb)
 }
 
 // targetAddress turns the symbolic target of a lookup into a real address.
@@ -519,14 +727,11 @@ func (r *runner) targetAddress(op Op) (btcutil.Address, error) {
 				return nil, fmt.Errorf("account out of table range")
 			}
 			ak = r.o.seedAcct(r.in.Seed, op.Scope, op.Account)
+			r.o.ensureChild(r.in.Seed, op.Scope, op.Account, op.Branch, op.Index)
 		} else {
 			ak = r.o.xpub(op.Xpub)
 		}
-		bk, err := ak.Child(op.Branch, hdoracle.Legacy)
-		if err != nil {
-			return nil, err
-		}
-		ck, err := bk.Child(op.Index, hdoracle.Legacy)
+		ck, _, err := hdoracle.AddressKey(ak, op.Branch, op.Index)
 		if err != nil {
 			return nil, err
 		}
@@ -534,65 +739,139 @@ func (r *runner) targetAddress(op Op) (btcutil.Address, error) {
 		if err != nil {
 			return nil, err
 		}
-	case "imp":
-		k := r.o.impKey(op.Key)
+	case "imp", "imppub":
+		var ser []byte
+		if op.Root == "imp" {
+			ser = r.o.impSerialized(op.Key)
+		} else {
+			k := r.o.impPub(op.Key)
+			ser = k.Pub[:]
+		}
 		var err error
-		str, err = hdoracle.Address(onet, op.Fmt, k.Pub[:])
+		str, err = hdoracle.AddressOfSerialized(onet, op.Fmt, ser)
 		if err != nil {
 			return nil, err
 		}
 	case "script":
-		str = hdoracle.ScriptHashAddress(onet, scriptBytes(op.Script))
+		str = scriptAddress(op.Script, op.SKind)
 	default:
 		return nil, fmt.Errorf("target root %q", op.Root)
 	}
 	return btcutil.DecodeAddress(str, params)
 }
 
+func fmtOfType(t waddrmgr.AddressType) string {
+	switch t {
+	case waddrmgr.PubKeyHash:
+		return hdoracle.P2PKH
+	case waddrmgr.NestedWitnessPubKey:
+		return hdoracle.NP2WKH
+	case waddrmgr.WitnessPubKey:
+		return hdoracle.P2WKH
+	case waddrmgr.TaprootPubKey:
+		return hdoracle.P2TR
+	}
+	return ""
+}
+
+// serialization of a compressed key as the flag says
+func serialized(pub33 []byte, compressed bool) []byte {
+	if compressed {
+		return pub33
+	}
+	u, err := hdoracle.Uncompressed(pub33)
+	if err != nil {
+		return pub33
+	}
+	return u
+}
+
 // observe reads every getter of a managed address and projects it.
 func (r *runner) observe(ma waddrmgr.ManagedAddress) AddrObs {
-	ob := AddrObs{Addr: ma.Address().String(), IAcct: ma.InternalAccount(), Internal: ma.Internal(), Imported: ma.Imported()}
+	ob := AddrObs{Addr: ma.Address().String(), IAcct: ma.InternalAccount(), Internal: ma.Internal(), Imported: ma.Imported(),
+		Compressed: ma.Compressed()}
 	ob.Key = KeyRef{Root: "unknown", Path: [][2]uint32{}}
 	switch a := ma.(type) {
 	case waddrmgr.ManagedPubKeyAddress:
 		ob.Kind = "key"
 		pub := a.PubKey().SerializeCompressed()
+		ob.Pub = hex.EncodeToString(pub)
 		ref, ent := r.o.ref(pub)
+		if ent != nil && ent.Root == "imp" && impCompressed(int(ent.ID)) != ob.Compressed {
+			// the same point under the other serialization is another public key
+			ref, ent = KeyRef{Root: "unknown", Path: [][2]uint32{}}, nil
+		}
 		ob.Key = ref
-		ob.Fmt = hdoracle.FormatOf(onet, ob.Addr, pub)
+		ser := serialized(pub, ob.Compressed)
+		ob.Fmt = hdoracle.FormatOfSerialized(onet, ob.Addr, ser)
+		ob.AddrType = fmtOfType(a.AddrType())
 		sc, dp, known := a.DerivationInfo()
 		ob.Known = known
 		ob.DScope = [2]uint32{sc.Purpose, sc.Coin}
 		ob.DPath = [5]uint32{dp.InternalAccount, dp.Account, dp.Branch, dp.Index, dp.MasterKeyFingerprint}
 		pk, err := a.PrivKey()
-		switch {
-		case err != nil:
+		if err != nil {
 			ob.Priv = "err:" + classify(err)
-		case !pk.PubKey().IsEqual(a.PubKey()):
+			break
+		}
+		// "The wallet can sign for it": everything below is computed by the
+		// oracle from the 32 bytes the wallet returned.
+		d := pk.Serialize()
+		own := hdoracle.PubOfScalar(d)
+		switch {
+		case string(own[:]) != string(pub):
 			ob.Priv = "mismatch"
-		case ent == nil || ent.Priv == nil || string(ent.Priv) != string(pk.Serialize()):
+			ob.Sign = "the returned private key is not the key of PubKey()"
+		case ent == nil || ent.Priv == nil || string(ent.Priv) != string(d):
 			ob.Priv = "mismatch"
+			ob.Sign = "the returned private key is not the one the specification derives for this public key"
 		default:
 			ob.Priv = "ok"
+			ob.Sign = "ok"
+			if ob.AddrType == "" {
+				ob.Sign = "AddrType() is no single-key format"
+			} else if again, err := hdoracle.AddressOfSerialized(onet, ob.AddrType, serialized(own[:], ob.Compressed)); err != nil || again != ob.Addr {
+				ob.Sign = fmt.Sprintf("the key's public key encodes to %s in the reported format %s, not to Address()", again, ob.AddrType)
+			}
 		}
 	case waddrmgr.ManagedScriptAddress:
 		ob.Kind = "script"
-		id, ok := r.scripts[ob.Addr]
+		sid, ok := r.scripts[ob.Addr]
 		if !ok {
-			id = -1
+			sid = scriptID{id: -1}
 		}
-		ob.Script = id
+		ob.Script, ob.SKind = sid.id, sid.skind
 		s, err := a.Script()
 		switch {
 		case err != nil:
 			ob.ScriptV = "err:" + classify(err)
-		case ok && string(s) == string(scriptBytes(id)):
+		case ok && r.scriptUnchanged(a, s, sid):
 			ob.ScriptV = "ok"
 		default:
 			ob.ScriptV = "changed"
 		}
 	}
 	return ob
+}
+
+// scriptUnchanged: what comes back is what was imported.
+func (r *runner) scriptUnchanged(a waddrmgr.ManagedScriptAddress, got []byte, sid scriptID) bool {
+	want := scriptBytes(sid.id)
+	if sid.skind != "tr" {
+		return string(got) == string(want)
+	}
+	ta, ok := a.(waddrmgr.ManagedTaprootScriptAddress)
+	if !ok {
+		return false
+	}
+	ts, err := ta.TaprootScript()
+	if err != nil || ts == nil || ts.ControlBlock == nil || ts.ControlBlock.InternalKey == nil || len(ts.Leaves) != 1 {
+		return false
+	}
+	ik := scriptInternalKey(sid.id)
+	return ts.Type == waddrmgr.TapscriptTypeFullTree && string(ts.Leaves[0].Script) == string(want) &&
+		ts.Leaves[0].LeafVersion == txscript.BaseLeafVersion &&
+		string(ts.ControlBlock.InternalKey.SerializeCompressed()[1:]) == string(ik[1:])
 }
 
 func (r *runner) addHandle(ma waddrmgr.ManagedAddress, origin string) *handle {
@@ -606,77 +885,121 @@ func (r *runner) addHandle(ma waddrmgr.ManagedAddress, origin string) *handle {
 }
 
 func pathOf(ref KeyRef) (scope [2]uint32, a, b, i uint32, ok bool) {
+	raw := func(s [2]uint32) uint32 {
+		if s[1] == 1 {
+			return s[0] + hdoracle.HardenedStart
+		}
+		return s[0]
+	}
 	switch ref.Root {
 	case "seed":
 		if len(ref.Path) != 5 {
 			return
 		}
-		return [2]uint32{ref.Path[0][0], ref.Path[1][0]}, ref.Path[2][0], ref.Path[3][0], ref.Path[4][0], true
+		return [2]uint32{ref.Path[0][0], ref.Path[1][0]}, ref.Path[2][0], raw(ref.Path[3]), raw(ref.Path[4]), true
 	case "xpub":
 		if len(ref.Path) != 2 {
 			return
 		}
-		return scope, 0, ref.Path[0][0], ref.Path[1][0], true
+		return scope, 0, raw(ref.Path[0]), raw(ref.Path[1]), true
 	}
 	return
 }
 
-// checkChain states C03 on one returned chain address.  want* describe what the
-// operation was asked for; idx < 0 means "any index".
-func (r *runner) checkChain(site string, ob AddrObs, scope [2]uint32, a, branch uint32, idx int64, reportedAcctChild *uint32, unlocked bool) {
+// checkChain states C03 on one chain address returned for the REQUEST
+// (scope, account a, branch, index idx) - raw child numbers: the oracle derives
+// the key the specification assigns to that request and everything the wallet
+// reports is compared with it.
+func (r *runner) checkChain(site string, ob AddrObs, scope [2]uint32, a, branch, idx uint32, unlocked bool) {
+	r.checkChainReq(site, ob, scope, a, branch, idx, unlocked, nil)
+}
+
+// checkChainReq: reqChild is the DerivationPath.Account field a DeriveFromKeyPath
+// request carried (the caller vouches for it; the wallet copies it into the answer).
+func (r *runner) checkChainReq(site string, ob AddrObs, scope [2]uint32, a, branch, idx uint32, unlocked bool, reqChild *uint32) {
 	ak, sp := r.acctKey(scope, a)
 	if ak == nil {
 		r.violate("address_not_seed_child", site, fmt.Sprintf("address %s returned for unknown account %d", ob.Addr, a))
 		return
 	}
-	_, _, pb, pi, ok := pathOf(ob.Key)
-	wantRoot, wantID := "seed", r.in.Seed
-	if sp.root == "xpub" {
-		wantRoot, wantID = "xpub", uint64(sp.xpub)
+	if sp.root == "seed" {
+		r.o.ensureChild(r.in.Seed, scope, a, branch, idx)
 	}
-	good := ok && ob.Key.Root == wantRoot && ob.Key.ID == wantID && pb == branch
-	if good && wantRoot == "seed" {
-		ps, pa, _, _, _ := pathOf(ob.Key)
-		good = ps == scope && pa == a
-	}
-	if !good {
-		r.violate("address_not_seed_child", site, fmt.Sprintf("%s encodes key %+v, wanted %s %d scope %v account %d branch %d",
-			ob.Addr, ob.Key, wantRoot, wantID, scope, a, branch))
+	want, div, err := hdoracle.AddressKey(ak, branch, idx)
+	if err != nil {
+		r.violate("address_not_seed_child", site, fmt.Sprintf("%s returned for %v/%d/%d/%d, which has no key (%v)", ob.Addr, scope, a, branch, idx, err))
 		return
 	}
-	if ob.Key.Alt != "" {
-		r.tags["issue172_variant:"+ob.Key.Alt] = true
+	for _, d := range div {
+		r.tags["divergent_step_exercised:"+hdoracle.StepName(d.Depth)] = true
 	}
-	if idx >= 0 && uint32(idx) != pi {
-		r.violate("index_gap_or_repeat", site, fmt.Sprintf("%s is index %d, expected %d", ob.Addr, pi, idx))
+	for n := range r.o.div[r.in.Seed] {
+		if sp.root == "seed" && r.o.scopeDiverges(r.in.Seed, scope, a, n) {
+			r.tags["divergent_step_exercised:"+n] = true
+		}
+	}
+	if ob.Kind != "key" || ob.Pub != hex.EncodeToString(want.Pub[:]) {
+		switch ps, pa, pb, pi, ok := pathOf(ob.Key); {
+		case ob.Key.Deviation != "":
+			r.violate("wrong_hardened_rule", site, fmt.Sprintf("%s for %v/%d/%d/%d encodes the key made with the %s; the specified key is %x",
+				ob.Addr, scope, a, branch, idx, ob.Key.Deviation, want.Pub))
+		case ok && ob.Key.Root == sp.root && (sp.root == "xpub" && ob.Key.ID == uint64(sp.xpub) || sp.root == "seed" && ob.Key.ID == r.in.Seed && ps == scope && pa == a) && pb == branch && pi != idx:
+			r.violate("index_gap_or_repeat", site, fmt.Sprintf("%s is index %d, expected %d", ob.Addr, pi, idx))
+		default:
+			r.violate("address_not_seed_child", site, fmt.Sprintf("%s encodes key %+v (%s), wanted %s scope %v account %d branch %d index %d = %x",
+				ob.Addr, ob.Key, ob.Pub, sp.root, scope, a, branch, idx, want.Pub))
+		}
+		return
 	}
 	if sch, ok := r.schemaFor(scope, a); ok {
-		want := sch[0]
+		wantFmt := sch[0]
 		if branch == 1 {
-			want = sch[1]
+			wantFmt = sch[1]
 		}
-		if ob.Fmt != want {
-			r.violate("wrong_address_format", site, fmt.Sprintf("%s has format %q, schema says %s", ob.Addr, ob.Fmt, want))
+		if wantAddr, err := hdoracle.Address(onet, wantFmt, want.Pub[:]); err != nil || ob.Addr != wantAddr {
+			r.violate("wrong_address_format", site, fmt.Sprintf("%s has format %q, schema says %s (%s)", ob.Addr, ob.Fmt, wantFmt, wantAddr))
 		}
 	}
-	// reported derivation path, account, internal flag
+	// reported derivation path, account, internal flag: the REQUEST's
 	wantChild := a + hdoracle.HardenedStart
 	if sp.root == "xpub" {
 		wantChild = xpubChild(sp.xpub)
 	}
-	if reportedAcctChild != nil {
-		wantChild = *reportedAcctChild
+	if reqChild != nil && *reqChild != wantChild {
+		// the caller named another account child number than the account key has: an
+		// untruthful request, for which the property promises nothing about that field
+		// (the wallet reports the caller's value; noted as an observation)
+		r.tags["observation:derive_reports_callers_account_field_unchecked"] = true
+		wantChild = *reqChild
 	}
-	if !ob.Known || ob.DScope != scope || ob.DPath[0] != a || ob.DPath[1] != wantChild || ob.DPath[2] != pb ||
-		ob.DPath[3] != pi || ob.IAcct != a || ob.Internal != (pb == 1) || ob.Imported {
-		r.violate("wrong_reported_path", site, fmt.Sprintf("%s: reported scope %v path %v iacct %d internal %v; true: scope %v account %d (child %d) branch %d index %d",
-			ob.Addr, ob.DScope, ob.DPath, ob.IAcct, ob.Internal, scope, a, wantChild, pb, pi))
+	if !ob.Known || ob.DScope != scope || ob.DPath[0] != a || ob.DPath[1] != wantChild || ob.DPath[2] != branch ||
+		ob.DPath[3] != idx || ob.IAcct != a || ob.Internal != (branch == 1) || ob.Imported {
+		r.violate("wrong_reported_path", site, fmt.Sprintf("%s: reported scope %v path %v iacct %d internal %v imported %v; true: scope %v account %d (child %d) branch %d index %d",
+			ob.Addr, ob.DScope, ob.DPath, ob.IAcct, ob.Internal, ob.Imported, scope, a, wantChild, branch, idx))
 	}
 	if ob.DPath[4] != sp.fp {
 		r.tags["fingerprint_not_reported"] = true
 	}
 	r.checkPriv(site, ob, sp.hasPriv, unlocked)
-	r.addrOf[ikey(scope, a, pb, pi)] = ob.Addr
+	r.addrOf[ikey(scope, a, branch, idx)] = ob.Addr
+}
+
+// scopeDiverges: does divergence name n of the seed lie on the way to account a of scope?
+func (o *oracleDB) scopeDiverges(seed uint64, scope [2]uint32, a uint32, n string) bool {
+	key := fmt.Sprintf("div/%d/%d/%d/%d/%s", seed, scope[0], scope[1], a, n)
+	if v, ok := o.divMemo[key]; ok {
+		return v
+	}
+	res := false
+	if _, div, err := hdoracle.AccountKey(o.master(seed), scope[0], scope[1], a); err == nil {
+		for _, d := range div {
+			if divName(d, a) == n {
+				res = true
+			}
+		}
+	}
+	o.divMemo[key] = res
+	return res
 }
 
 func (r *runner) checkPriv(site string, ob AddrObs, hasPriv, unlocked bool) {
@@ -685,7 +1008,9 @@ func (r *runner) checkPriv(site string, ob AddrObs, hasPriv, unlocked bool) {
 	}
 	switch {
 	case ob.Priv == "mismatch":
-		r.violate("privkey_mismatch", site, ob.Addr+" PrivKey() is not the key of PubKey()")
+		r.violate("privkey_mismatch", site, ob.Addr+": "+ob.Sign)
+	case ob.Priv == "ok" && ob.Sign != "ok":
+		r.violate("cannot_sign_for_address", site, ob.Addr+": "+ob.Sign)
 	case unlocked && ob.Priv != "ok":
 		r.violate("privkey_unavailable_while_unlocked", site, ob.Addr+" PrivKey() = "+ob.Priv+" while unlocked")
 	}
@@ -717,8 +1042,15 @@ func opSite(op Op) string {
 		return "DeriveFromKeyPathCache"
 	case "importkey":
 		return "ImportPrivateKey"
+	case "importpub":
+		return "ImportPublicKey"
 	case "importscript":
 		return "ImportScript"
+	case "importwscript":
+		if op.SKind == "tr" {
+			return "ImportTaprootScript"
+		}
+		return "ImportWitnessScript"
 	case "open":
 		return "Open"
 	}
@@ -726,13 +1058,25 @@ func opSite(op Op) string {
 }
 
 func (r *runner) step(op Op) Result {
+	if r.dead {
+		return Result{Kind: "err", Err: "other"}
+	}
 	mgr := r.w.mgr
 	site := opSite(op)
 	res := Result{Kind: "ok"}
+	// table the keys the specification assigns to the account the REQUEST names
+	// (from the request alone, before anything the wallet answers is looked at)
+	if sp := r.accts[op.Scope][op.Account]; sp != nil && sp.root == "seed" {
+		r.o.ensureAcct(r.in.Seed, op.Scope, op.Account)
+	}
 	switch op.Op {
 	case "open":
-		if err := r.w.restart("w.db"); err != nil {
-			panic(err)
+		if err := r.w.restart("w.db", r.pubPass); err != nil {
+			// the wallet file no longer opens with its public passphrase: nothing
+			// issued so far can be looked up or derived again
+			r.violate("restart_fails", "Open", err.Error())
+			r.dead = true
+			return errResult(err)
 		}
 		r.handles = nil
 		r.issuer = map[string]string{}
@@ -767,6 +1111,17 @@ func (r *runner) step(op Op) Result {
 			res = errResult(err)
 		} else {
 			r.tags["chpass"] = true
+		}
+
+	case "chpubpass":
+		err := r.w.update(func(ns walletdb.ReadWriteBucket) error {
+			return mgr.ChangePassphrase(ns, pubPassBytes(op.Pass), pubPassBytes(op.NewPass), false, &waddrmgr.FastScryptOptions)
+		})
+		if err != nil {
+			res = errResult(err)
+		} else {
+			r.pubPass = op.NewPass
+			r.tags["chpubpass"] = true
 		}
 
 	case "newscope":
@@ -837,6 +1192,15 @@ func (r *runner) step(op Op) Result {
 		if err != nil {
 			return errResult(err)
 		}
+		// A count the wallet would ACCEPT but that stands for millions of addresses is
+		// not run (it only arises when a refused request of the generator lands in
+		// another state, e.g. while a failing history is shrunk): the operation is
+		// reported as skipped and left out of the comparison with the model.
+		if b := r.issued[bkey(op.Scope, op.Account, map[bool]uint32{false: 0, true: 1}[op.Internal])]; op.N > maxRunCount &&
+			op.N <= waddrmgr.MaxAddressesPerAccount && uint64(b)+uint64(op.N) <= waddrmgr.MaxAddressesPerAccount {
+			r.tags["huge_request_not_run"] = true
+			return Result{Kind: "skipped"}
+		}
 		var mas []waddrmgr.ManagedAddress
 		err = r.w.update(func(ns walletdb.ReadWriteBucket) error {
 			var err error
@@ -847,10 +1211,20 @@ func (r *runner) step(op Op) Result {
 			}
 			return err
 		})
+		if op.N == 0 {
+			r.tags["next_zero"] = true
+		}
 		if err != nil {
 			res = errResult(err)
-			if res.Err == "panic" {
+			switch {
+			case res.Err == "panic" && op.N == 0:
+				// nothing was asked for, so the property owes no address; the
+				// crash of the commit hook is reported as an observation
+				r.tags["observation:next_zero_addresses_panics_in_commit_hook"] = true
+			case res.Err == "panic":
 				r.violate("panic_in_address_derivation", site, err.Error())
+			case res.Err == "too_many":
+				r.tags["too_many_refused"] = true
 			}
 			break
 		}
@@ -869,7 +1243,7 @@ func (r *runner) step(op Op) Result {
 			ob := r.observe(ma)
 			res.Addrs = append(res.Addrs, ob)
 			h.kind, h.scope, h.account = "chain", op.Scope, op.Account
-			r.checkChain(site, ob, op.Scope, op.Account, branch, int64(r.issued[bk])+int64(k), nil, unlocked)
+			r.checkChain(site, ob, op.Scope, op.Account, branch, r.issued[bk]+uint32(k), unlocked)
 			r.issuer[ikey(op.Scope, op.Account, branch, r.issued[bk]+uint32(k))] = site
 		}
 		r.issued[bk] += uint32(len(mas))
@@ -887,6 +1261,11 @@ func (r *runner) step(op Op) Result {
 		if err != nil {
 			return errResult(err)
 		}
+		if b := r.issued[bkey(op.Scope, op.Account, map[bool]uint32{false: 0, true: 1}[op.Internal])]; op.N <= waddrmgr.MaxAddressesPerAccount &&
+			op.N >= b && op.N-b > maxRunCount {
+			r.tags["huge_request_not_run"] = true
+			return Result{Kind: "skipped"}
+		}
 		wasLocked := mgr.IsLocked()
 		err = r.w.update(func(ns walletdb.ReadWriteBucket) error {
 			if op.Internal {
@@ -898,6 +1277,9 @@ func (r *runner) step(op Op) Result {
 			res = errResult(err)
 			if res.Err == "panic" {
 				r.violate("panic_in_address_derivation", site, err.Error())
+			}
+			if res.Err == "too_many" {
+				r.tags["too_many_refused"] = true
 			}
 			break
 		}
@@ -952,6 +1334,10 @@ func (r *runner) step(op Op) Result {
 					}
 				}
 			}
+			// ... and so must imported keys and scripts
+			if at, ok := r.impAddr[impAddrKey(op)]; ok && at == addr.String() {
+				r.violate("issued_address_unknown", site, fmt.Sprintf("imported %s %d (%s) is not found: %v", op.Root, op.Key+op.Script, addr, err))
+			}
 			break
 		}
 		res = Result{Kind: "addrs"}
@@ -976,7 +1362,7 @@ func (r *runner) step(op Op) Result {
 		switch op.Root {
 		case "seed", "xpub":
 			h.kind, h.scope, h.account = "chain", op.Scope, op.Account
-			r.checkChain(origin, ob, op.Scope, op.Account, op.Branch, int64(op.Index), nil, unlocked)
+			r.checkChain(origin, ob, op.Scope, op.Account, op.Branch, op.Index, unlocked)
 			if unlocked && r.objEpoch[ma] == r.epoch && r.epoch > 0 && !seen {
 				r.tags["probe_after_restart"] = true
 			}
@@ -984,11 +1370,17 @@ func (r *runner) step(op Op) Result {
 				r.tags["probe_extended_address"] = true
 			}
 		case "imp":
-			h.kind, h.impKey = "impkey", op.Key
-			r.checkImported(origin, ob, op.Key, unlocked)
+			h.kind, h.impKey, h.scope = "impkey", op.Key, op.Scope
+			r.checkImported(origin, ob, op.Scope, op.Key, false, unlocked)
+			if r.epoch > 0 && !impCompressed(op.Key) {
+				r.tags["uncompressed_import_after_restart"] = true
+			}
+		case "imppub":
+			h.kind, h.impKey, h.scope = "imppub", op.Key, op.Scope
+			r.checkImported(origin, ob, op.Scope, op.Key, true, unlocked)
 		case "script":
-			h.kind, h.script = "script", op.Script
-			r.checkScript(origin, ob, op.Script, unlocked)
+			h.kind, h.script, h.skind, h.secret = "script", op.Script, op.SKind, r.secret[addr.String()]
+			r.checkScript(origin, ob, op.Script, op.SKind, unlocked || !h.secret)
 		}
 
 	case "derive":
@@ -1004,20 +1396,33 @@ func (r *runner) step(op Op) Result {
 			ma, err = sm.DeriveFromKeyPath(ns, kp)
 			return err
 		})
+		hardened := op.Branch >= hdoracle.HardenedStart || op.Index >= hdoracle.HardenedStart
+		if hardened {
+			r.tags["derive_hardened_request"] = true
+		}
 		if err != nil {
 			res = errResult(err)
 			if res.Err == "panic" {
 				r.violate("panic_in_address_derivation", site, err.Error())
 			}
+			if hardened {
+				r.tags["derive_hardened_refused"] = true
+			}
 			break
 		}
 		res = Result{Kind: "addrs"}
+		if sp := r.accts[op.Scope][op.Account]; sp != nil && sp.root == "seed" {
+			r.o.ensureChild(r.in.Seed, op.Scope, op.Account, op.Branch, op.Index) // name the requested key (from the request alone)
+		}
 		h := r.addHandle(ma, site)
 		ob := r.observe(ma)
 		res.Addrs = []AddrObs{ob}
 		h.kind, h.scope, h.account = "chain", op.Scope, op.Account
 		ac := op.AcctChild
-		r.checkChain(site, ob, op.Scope, op.Account, op.Branch, int64(op.Index), &ac, !mgr.IsLocked())
+		r.checkChainReq(site, ob, op.Scope, op.Account, op.Branch, op.Index, !mgr.IsLocked(), &ac)
+		if hardened {
+			r.tags["derive_hardened_derived"] = true
+		}
 		if mgr.IsLocked() {
 			r.tags["derive_locked"] = true
 		} else {
@@ -1047,15 +1452,20 @@ func (r *runner) step(op Op) Result {
 			}
 			break
 		}
-		ref, ent := r.o.ref(pk.PubKey().SerializeCompressed())
+		d := pk.Serialize()
+		own := hdoracle.PubOfScalar(d)
+		if sp := r.accts[op.Scope][op.Account]; sp != nil && sp.root == "seed" {
+			r.o.ensureChild(r.in.Seed, op.Scope, op.Account, op.Branch, op.Index)
+		}
+		ref, _ := r.o.ref(own[:])
 		res = Result{Kind: "key", Key: &ref}
 		r.tags["derivecache_key"] = true
-		// the key must be the private key of (account, branch, index)
-		ps, pa, pb, pi, ok := pathOf(ref)
-		sp := r.accts[op.Scope][op.Account]
-		good := ok && ent != nil && string(ent.Priv) == string(pk.Serialize()) && pb == op.Branch && pi == op.Index && sp != nil
-		if good && ref.Root == "seed" {
-			good = sp.root == "seed" && ps == op.Scope && pa == op.Account && ref.ID == r.in.Seed
+		// the key must be the private key the specification derives for the REQUEST
+		good := false
+		if ak, sp := r.acctKey(op.Scope, op.Account); ak != nil && sp.hasPriv {
+			if want, _, err := hdoracle.AddressKey(ak, op.Branch, op.Index); err == nil && want.Priv != nil {
+				good = string(want.PrivBytes()) == string(d)
+			}
 		}
 		if !good {
 			r.violate("privkey_mismatch", site, fmt.Sprintf("key %+v returned for %v/%d/%d/%d", ref, op.Scope, op.Account, op.Branch, op.Index))
@@ -1068,7 +1478,7 @@ func (r *runner) step(op Op) Result {
 		}
 		k := r.o.impKey(op.Key)
 		priv, _ := btcec.PrivKeyFromBytes(k.PrivBytes())
-		wif, err := btcutil.NewWIF(priv, params, true)
+		wif, err := btcutil.NewWIF(priv, params, impCompressed(op.Key))
 		if err != nil {
 			panic(err)
 		}
@@ -1086,21 +1496,28 @@ func (r *runner) step(op Op) Result {
 		h := r.addHandle(ma, site)
 		ob := r.observe(ma)
 		res.Addrs = []AddrObs{ob}
-		h.kind, h.impKey = "impkey", op.Key
-		r.checkImported(site, ob, op.Key, !mgr.IsLocked())
+		h.kind, h.impKey, h.scope = "impkey", op.Key, op.Scope
+		r.impAddr[fmt.Sprintf("%v/imp/%d", op.Scope, op.Key)] = ob.Addr
+		r.checkImported(site, ob, op.Scope, op.Key, false, !mgr.IsLocked())
 		r.tags["importkey"] = true
+		if !impCompressed(op.Key) {
+			r.tags["importkey_uncompressed"] = true
+		}
 
-	case "importscript":
+	case "importpub":
 		sm, err := r.scoped(op.Scope)
 		if err != nil {
 			return errResult(err)
 		}
-		sb := scriptBytes(op.Script)
-		r.scripts[hdoracle.ScriptHashAddress(onet, sb)] = op.Script
-		var ma waddrmgr.ManagedScriptAddress
+		k := r.o.impPub(op.Key)
+		pub, err := btcec.ParsePubKey(k.Pub[:])
+		if err != nil {
+			panic(err)
+		}
+		var ma waddrmgr.ManagedAddress
 		err = r.w.update(func(ns walletdb.ReadWriteBucket) error {
 			var err error
-			ma, err = sm.ImportScript(ns, sb, &waddrmgr.BlockStamp{})
+			ma, err = sm.ImportPublicKey(ns, pub, nil)
 			return err
 		})
 		if err != nil {
@@ -1111,9 +1528,67 @@ func (r *runner) step(op Op) Result {
 		h := r.addHandle(ma, site)
 		ob := r.observe(ma)
 		res.Addrs = []AddrObs{ob}
-		h.kind, h.script = "script", op.Script
-		r.checkScript(site, ob, op.Script, !mgr.IsLocked())
-		r.tags["importscript"] = true
+		h.kind, h.impKey, h.scope = "imppub", op.Key, op.Scope
+		r.impAddr[fmt.Sprintf("%v/imppub/%d", op.Scope, op.Key)] = ob.Addr
+		r.checkImported(site, ob, op.Scope, op.Key, true, !mgr.IsLocked())
+		r.tags["importpub:"+r.schemas[op.Scope][0]] = true
+
+	case "importscript", "importwscript":
+		sm, err := r.scoped(op.Scope)
+		if err != nil {
+			return errResult(err)
+		}
+		sb := scriptBytes(op.Script)
+		skind, secret := op.SKind, op.Secret
+		if op.Op == "importscript" {
+			skind, secret = "", true
+		}
+		want := scriptAddress(op.Script, skind)
+		r.scripts[want] = scriptID{op.Script, skind}
+		var ma waddrmgr.ManagedScriptAddress
+		err = r.w.update(func(ns walletdb.ReadWriteBucket) error {
+			var err error
+			switch skind {
+			case "wsh":
+				ma, err = sm.ImportWitnessScript(ns, sb, &waddrmgr.BlockStamp{}, 0, secret)
+			case "tr":
+				ik := scriptInternalKey(op.Script)
+				ipub, perr := btcec.ParsePubKey(ik[:])
+				if perr != nil {
+					panic(perr)
+				}
+				ts := &waddrmgr.Tapscript{Type: waddrmgr.TapscriptTypeFullTree,
+					ControlBlock: &txscript.ControlBlock{InternalKey: ipub},
+					Leaves:       []txscript.TapLeaf{txscript.NewBaseTapLeaf(sb)}}
+				var ta waddrmgr.ManagedTaprootScriptAddress
+				ta, err = sm.ImportTaprootScript(ns, ts, &waddrmgr.BlockStamp{}, 1, secret)
+				if err == nil {
+					ma = ta
+				}
+			default:
+				ma, err = sm.ImportScript(ns, sb, &waddrmgr.BlockStamp{})
+			}
+			return err
+		})
+		if err != nil {
+			res = errResult(err)
+			break
+		}
+		r.secret[want] = secret
+		res = Result{Kind: "addrs"}
+		h := r.addHandle(ma, site)
+		ob := r.observe(ma)
+		res.Addrs = []AddrObs{ob}
+		h.kind, h.script, h.skind, h.secret = "script", op.Script, skind, secret
+		r.impAddr[fmt.Sprintf("%v/script/%d", op.Scope, op.Script)] = want
+		if ob.Addr != want {
+			r.violate("imported_script_changed", site, fmt.Sprintf("script %d (%s) imported under address %s, its address is %s", op.Script, skind, ob.Addr, want))
+		}
+		r.checkScript(site, ob, op.Script, skind, !mgr.IsLocked() || !secret)
+		r.tags["importscript:"+skind] = true
+		if !secret {
+			r.tags["importscript_public"] = true
+		}
 
 	case "props":
 		sm, err := r.scoped(op.Scope)
@@ -1146,14 +1621,18 @@ func (r *runner) step(op Op) Result {
 		if !ok {
 			return Result{Kind: "err", Err: "other"}
 		}
+		ob := r.observe(h.ma)
 		pk, err := pka.PrivKey()
 		if err != nil {
 			res = errResult(err)
 		} else {
-			ref, _ := r.o.ref(pk.PubKey().SerializeCompressed())
+			own := hdoracle.PubOfScalar(pk.Serialize())
+			ref, ent := r.o.ref(own[:])
+			if ent != nil && ent.Root == "imp" && impCompressed(int(ent.ID)) != ob.Compressed {
+				ref = KeyRef{Root: "unknown", Path: [][2]uint32{}}
+			}
 			res = Result{Kind: "key", Key: &ref}
 		}
-		ob := r.observe(h.ma)
 		unlocked := !mgr.IsLocked()
 		switch h.kind {
 		case "chain":
@@ -1164,7 +1643,9 @@ func (r *runner) step(op Op) Result {
 				}
 			}
 		case "impkey":
-			r.checkImported(h.origin, ob, h.impKey, unlocked)
+			r.checkImported(h.origin, ob, h.scope, h.impKey, false, unlocked)
+		case "imppub":
+			r.checkImported(h.origin, ob, h.scope, h.impKey, true, unlocked)
 		}
 
 	case "script":
@@ -1181,18 +1662,29 @@ func (r *runner) step(op Op) Result {
 			res = errResult(err)
 		} else {
 			res = Result{Kind: "script", Script: -1}
-			if string(s) == string(scriptBytes(h.script)) {
+			if r.scriptUnchanged(sa, s, scriptID{h.script, h.skind}) {
 				res.Script = h.script
+				res.SKind = h.skind
 			}
 		}
 		if h.kind == "script" {
-			r.checkScript(h.origin, r.observe(h.ma), h.script, !mgr.IsLocked())
+			r.checkScript(h.origin, r.observe(h.ma), h.script, h.skind, !mgr.IsLocked() || !h.secret)
 		}
 
 	default:
 		panic("unknown op " + op.Op)
 	}
 	return res
+}
+
+func impAddrKey(op Op) string {
+	switch op.Root {
+	case "imp", "imppub":
+		return fmt.Sprintf("%v/%s/%d", op.Scope, op.Root, op.Key)
+	case "script":
+		return fmt.Sprintf("%v/script/%d", op.Scope, op.Script)
+	}
+	return ""
 }
 
 func (r *runner) lookupFmtMatches(op Op) bool {
@@ -1207,35 +1699,69 @@ func (r *runner) lookupFmtMatches(op Op) bool {
 	return want == op.Fmt
 }
 
-func (r *runner) checkImported(site string, ob AddrObs, key int, unlocked bool) {
-	if ob.Kind != "key" || ob.Key.Root != "imp" || ob.Key.ID != uint64(key) || !ob.Imported || ob.Known {
-		r.violate("imported_key_changed", site, fmt.Sprintf("imported key %d comes back as %+v imported=%v", key, ob.Key, ob.Imported))
+// checkImported: an imported key comes back unchanged - same point, same
+// serialization (compressed flag), hence the same address as at import - with
+// its private key when one was imported (pubOnly = false) and the manager is
+// unlocked, and without one otherwise.
+func (r *runner) checkImported(site string, ob AddrObs, scope [2]uint32, key int, pubOnly, unlocked bool) {
+	root := "imp"
+	if pubOnly {
+		root = "imppub"
+	}
+	if ob.Kind != "key" || ob.Key.Root != root || ob.Key.ID != uint64(key) || !ob.Imported || ob.Known {
+		r.violate("imported_key_changed", site, fmt.Sprintf("imported key %s %d comes back as %+v imported=%v compressed=%v", root, key, ob.Key, ob.Imported, ob.Compressed))
+		return
+	}
+	if at, ok := r.impAddr[fmt.Sprintf("%v/%s/%d", scope, root, key)]; ok && at != ob.Addr {
+		r.violate("imported_key_changed", site, fmt.Sprintf("imported key %s %d had address %s at import and has %s now", root, key, at, ob.Addr))
+	}
+	// the address the key has in the scope's external format (for an
+	// uncompressed key: the legacy P2PKH form only; other formats have no
+	// agreed meaning for 65-byte keys, there the address at import is the reference)
+	if sch, ok := r.schemas[scope]; ok {
+		ser := r.o.impPubSerialized(root, key)
+		if len(ser) == 33 || sch[0] == hdoracle.P2PKH || sch[0] == hdoracle.P2TR {
+			if want, err := hdoracle.AddressOfSerialized(onet, sch[0], ser); err == nil && want != ob.Addr {
+				r.violate("imported_key_changed", site, fmt.Sprintf("imported key %s %d has address %s, its %s address is %s", root, key, ob.Addr, sch[0], want))
+			}
+		}
+	}
+	if pubOnly {
+		if ob.Priv == "ok" || ob.Priv == "mismatch" {
+			r.violate("imported_key_changed", site, fmt.Sprintf("public key %d was imported without a private key, PrivKey() = %s", key, ob.Priv))
+		}
 		return
 	}
 	if ob.Priv == "mismatch" || (unlocked && ob.Priv != "ok") {
-		r.violate("imported_key_changed", site, fmt.Sprintf("imported key %d: PrivKey() = %s", key, ob.Priv))
+		r.violate("imported_key_changed", site, fmt.Sprintf("imported key %d: PrivKey() = %s %s", key, ob.Priv, ob.Sign))
+	} else if ob.Priv == "ok" && ob.Sign != "ok" {
+		r.violate("cannot_sign_for_address", site, fmt.Sprintf("imported key %d: %s", key, ob.Sign))
 	}
 }
 
-func (r *runner) checkScript(site string, ob AddrObs, script int, unlocked bool) {
-	if ob.Kind != "script" || ob.Script != script {
-		r.violate("imported_script_changed", site, fmt.Sprintf("imported script %d comes back as %+v", script, ob))
+// checkScript: avail = the script must be readable now (unlocked, or imported as a public script).
+func (r *runner) checkScript(site string, ob AddrObs, script int, skind string, avail bool) {
+	if ob.Kind != "script" || ob.Script != script || ob.SKind != skind {
+		r.violate("imported_script_changed", site, fmt.Sprintf("imported script %d (%s) comes back as %+v", script, skind, ob))
 		return
 	}
-	if ob.ScriptV == "changed" || (unlocked && ob.ScriptV != "ok") {
+	if ob.ScriptV == "changed" || (avail && ob.ScriptV != "ok") {
 		r.violate("imported_script_changed", site, fmt.Sprintf("imported script %d: Script() = %s", script, ob.ScriptV))
 	}
 }
 
-// recreate builds a second wallet from the same seed and compares the
-// addresses it issues with the ones recorded during the history.
+// recreate builds a SECOND, independent wallet from the same seed - other
+// private and public passphrases, another creation time, its own database
+// file - lets it issue the same address ranges, and compares every address
+// with the one the oracle derives for (seed, scope, account, branch, index) and
+// with the one the first wallet reported.
 func (r *runner) recreate(pass int) {
-	w2, err := createWallet(r.w.dir, "w2.db", r.in.Seed, pass)
+	w2, err := createWallet(r.w.dir, "w2.db", r.in.Seed, pass+700, 9, time.Unix(1700000000, 0))
 	if err != nil {
 		panic(err)
 	}
 	defer w2.close()
-	if err := w2.view(func(ns walletdb.ReadBucket) error { return w2.mgr.Unlock(ns, passBytes(pass)) }); err != nil {
+	if err := w2.view(func(ns walletdb.ReadBucket) error { return w2.mgr.Unlock(ns, passBytes(pass+700)) }); err != nil {
 		panic(err)
 	}
 	var keys []string
@@ -1250,8 +1776,11 @@ func (r *runner) recreate(pass int) {
 		fmt.Sscanf(k, "%d/%d/%d/%d", &scope[0], &scope[1], &a, &b)
 		sp := r.accts[scope][a]
 		n := r.issued[k]
-		if sp == nil || sp.root != "seed" || n == 0 {
+		if sp == nil || sp.root != "seed" || n == 0 || a > maxTableAcct {
 			continue
+		}
+		if n > 12 {
+			n = 12
 		}
 		ks := waddrmgr.KeyScope{Purpose: scope[0], Coin: scope[1]}
 		sm, err := w2.mgr.FetchScopedKeyManager(ks)
@@ -1288,13 +1817,28 @@ func (r *runner) recreate(pass int) {
 			r.violate("recreated_wallet_differs", "Create", fmt.Sprintf("re-created wallet cannot issue %s: %v", k, err))
 			continue
 		}
+		sch := r.schemas[scope]
+		ak := r.o.seedAcct(r.in.Seed, scope, a)
 		for i, ma := range mas {
-			if old, ok := r.addrOf[ikey(scope, a, b, uint32(i))]; ok {
-				compared++
-				if old != ma.Address().String() {
-					r.violate("recreated_wallet_differs", "Create", fmt.Sprintf("%s index %d: %s in the history, %s in the re-created wallet",
-						k, i, old, ma.Address()))
+			want, _, err := hdoracle.AddressKey(ak, b, uint32(i))
+			if err != nil {
+				continue
+			}
+			wantAddr, _ := hdoracle.Address(onet, sch[b], want.Pub[:])
+			got := ma.Address().String()
+			compared++
+			if got != wantAddr {
+				note := ""
+				if pk, ok := ma.(waddrmgr.ManagedPubKeyAddress); ok {
+					if ref, _ := r.o.ref(pk.PubKey().SerializeCompressed()); ref.Deviation != "" {
+						note = " (the key made with the " + ref.Deviation + ")"
+					}
 				}
+				r.violate("recreated_wallet_differs", "Create", fmt.Sprintf("%s index %d: the wallet re-created from the seed issues %s%s, the seed's address is %s",
+					k, i, got, note, wantAddr))
+			}
+			if old, ok := r.addrOf[ikey(scope, a, b, uint32(i))]; ok && old != got {
+				r.violate("recreated_wallet_differs", "Create", fmt.Sprintf("%s index %d: %s in the history, %s in the re-created wallet", k, i, old, got))
 			}
 		}
 	}
@@ -1304,12 +1848,13 @@ func (r *runner) recreate(pass int) {
 }
 
 func runCase(o *oracleDB, dir string, in Input, recreate bool) Case {
-	w, err := createWallet(dir, "w.db", in.Seed, in.Pass)
+	w, err := createWallet(dir, "w.db", in.Seed, in.Pass, 0, time.Time{})
 	if err != nil {
 		panic(err)
 	}
 	r := &runner{in: in, o: o, w: w, schemas: map[[2]uint32][2]string{}, accts: map[[2]uint32]map[uint32]*acctSpec{},
-		issued: map[string]uint32{}, issuer: map[string]string{}, addrOf: map[string]string{}, scripts: map[string]int{},
+		issued: map[string]uint32{}, issuer: map[string]string{}, addrOf: map[string]string{}, impAddr: map[string]string{},
+		scripts: map[string]scriptID{}, secret: map[string]bool{},
 		bad: map[string]string{}, tags: map[string]bool{}, createdLocked: map[waddrmgr.ManagedAddress]bool{},
 		objEpoch: map[waddrmgr.ManagedAddress]int{}}
 	defer func() { r.w.close() }()
@@ -1322,24 +1867,21 @@ func runCase(o *oracleDB, dir string, in Input, recreate bool) Case {
 		o.ensureScope(in.Seed, sc)
 	}
 	c := Case{In: in, Obs: []Result{}, Oracle: []string{}, Tags: []string{}}
-	pass := in.Pass
 	for _, op := range in.Ops {
 		res := r.step(op)
-		res.Locked = r.w.mgr.IsLocked()
+		if !r.dead {
+			res.Locked = r.w.mgr.IsLocked()
+		}
 		if res.Addrs == nil {
 			res.Addrs = []AddrObs{}
 		}
-		if op.Op == "chpass" && res.Kind == "ok" {
-			pass = op.NewPass
-		}
 		c.Obs = append(c.Obs, res)
 	}
-	_ = pass
 	if recreate {
 		r.recreate(in.Pass)
 	}
-	if o.zero[in.Seed] {
-		r.tags["seed_with_leading_zero_intermediate_key"] = true
+	for n := range o.div[in.Seed] {
+		r.tags["seed_leading_zero_parent:"+n] = true
 	}
 	var kinds []string
 	for k := range r.bad {
@@ -1400,7 +1942,11 @@ type gState struct {
 	stuck    bool // an imported account is cached: the next unlock from locked fails
 	custom   bool
 	keyCtr   int
+	pubCtr   int
+	pubPass  int
+	impPubs  []Op
 	xpubPool []int
+	focus    *divSeed // the seed has a leading-zero parent there: go there often
 }
 
 func newGState(r *gen.R, pass int, xpubPool []int) *gState {
@@ -1414,10 +1960,26 @@ func newGState(r *gen.R, pass int, xpubPool []int) *gState {
 	return g
 }
 
-func (g *gState) pickScope() [2]uint32 { return g.scopes[g.r.Intn(len(g.scopes))] }
+func (g *gState) pickScope() [2]uint32 {
+	if g.focus != nil && g.focus.Step != "master" && g.r.Chance(3, 5) {
+		for _, sc := range g.scopes {
+			if sc == g.focus.Scope {
+				return sc
+			}
+		}
+	}
+	return g.scopes[g.r.Intn(len(g.scopes))]
+}
 
 func (g *gState) pickAcct(sc [2]uint32) *gAcct {
 	l := g.accts[sc]
+	if g.focus != nil && sc == g.focus.Scope && (g.focus.Step == "account" || g.focus.Step == "branch") && g.r.Chance(2, 3) {
+		for _, a := range l {
+			if a.num == g.focus.Account && a.root == "seed" {
+				return a
+			}
+		}
+	}
 	return l[g.r.Intn(len(l))]
 }
 
@@ -1432,11 +1994,11 @@ func (g *gState) fmtOf(sc [2]uint32, a *gAcct, branch uint32) string {
 	return s[0]
 }
 
-func (g *gState) touch(a *gAcct) {
-	if a.root == "xpub" {
-		g.stuck = true
-	}
-}
+// touch: an imported (watch-only) account gets into the account cache.  At the
+// pinned commit the next Unlock from the locked state then failed (repaired:
+// ebd132b), which the generator had to anticipate to keep its account numbering
+// in step with the wallet; Unlock succeeds now, so nothing is recorded any more.
+func (g *gState) touch(a *gAcct) {}
 
 func (g *gState) target(sc [2]uint32, a *gAcct, branch, index uint32) Op {
 	op := Op{Scope: sc, Account: a.num, Branch: branch, Index: index, Root: a.root, Xpub: a.xpub, Fmt: g.fmtOf(sc, a, branch)}
@@ -1473,7 +2035,17 @@ func (g *gState) genOps(tier string) []Op {
 		}
 		return []Op{unlockOp()}
 	}
-	switch r.Pick(8, 5, 2, 1, 4, 3, 18, 10, 16, 3, 6, 4, 3, 2, 5, 10, 2, 4, 6) {
+	// a seed whose coin-type (or purpose / master) key has a leading zero byte: more accounts, in that scope
+	wNewAcct, wHard := 4, 3
+	if g.focus != nil {
+		switch g.focus.Step {
+		case "master", "purpose", "coin":
+			wNewAcct = 9
+		default:
+			wNewAcct, wHard = 8, 10
+		}
+	}
+	switch r.Pick(8, 5, 2, 1, wNewAcct, 3, 18, 10, 16, 3, 6, 4, 3, 2, 5, 10, 2, 4, 6, 3, 3, 2, 2, wHard, 2) {
 	case 0: // unlock
 		if r.Chance(1, 8) {
 			wrong := Op{Op: "unlock", Pass: g.pass + 100 + r.Intn(3)}
@@ -1505,6 +2077,9 @@ func (g *gState) genOps(tier string) []Op {
 		var out []Op
 		out = append(out, doUnlock()...)
 		cs := customScopes[r.Intn(len(customScopes))]
+		if g.focus != nil && (g.focus.Scope == customScopes[0] || g.focus.Scope == customScopes[1]) {
+			cs = g.focus.Scope
+		}
 		sch := []string{allFormats[r.Intn(4)], allFormats[r.Intn(4)]}
 		out = append(out, Op{Op: "newscope", Scope: cs, Schema: sch})
 		if !g.locked {
@@ -1612,10 +2187,10 @@ func (g *gState) genOps(tier string) []Op {
 		}
 		return []Op{t}
 	case 9: // lookup of imported material
-		if len(g.impKeys)+len(g.scripts) == 0 {
+		if len(g.impKeys)+len(g.scripts)+len(g.impPubs) == 0 {
 			return nil
 		}
-		all := append(append([]Op{}, g.impKeys...), g.scripts...)
+		all := append(append(append([]Op{}, g.impKeys...), g.scripts...), g.impPubs...)
 		t := all[r.Intn(len(all))]
 		t.Op = "lookup"
 		if t.Root == "script" {
@@ -1655,8 +2230,16 @@ func (g *gState) genOps(tier string) []Op {
 		}
 		out = append(out, Op{Op: "importkey", Scope: sc, Key: k})
 		if !g.locked && k == g.keyCtr {
-			g.impKeys = append(g.impKeys, Op{Scope: sc, Root: "imp", Key: k, Fmt: g.schema[sc][0]})
+			t := Op{Scope: sc, Root: "imp", Key: k, Fmt: g.schema[sc][0]}
+			g.impKeys = append(g.impKeys, t)
 			g.handles = append(g.handles, gHandle{"impkey"})
+			if !impCompressed(k) && r.Chance(1, 2) {
+				// a WIF that says "uncompressed": the address must survive the restart
+				g.locked, g.stuck, g.handles = true, false, nil
+				t.Op = "lookup"
+				out = append(out, Op{Op: "open"}, t)
+				g.handles = append(g.handles, gHandle{"impkey"})
+			}
 		}
 		return out
 	case 13: // import a script
@@ -1718,6 +2301,116 @@ func (g *gState) genOps(tier string) []Op {
 		g.stuck = false
 		g.handles = nil
 		return []Op{{Op: "open"}}
+	case 19: // import a public key (no lock needed)
+		g.pubCtr++
+		k := g.pubCtr
+		if r.Chance(1, 8) && len(g.impPubs) > 0 {
+			dup := g.impPubs[r.Intn(len(g.impPubs))] // a duplicate import into the same scope (refused)
+			k, sc = dup.Key, dup.Scope
+		}
+		if k == g.pubCtr {
+			g.impPubs = append(g.impPubs, Op{Scope: sc, Root: "imppub", Key: k, Fmt: g.schema[sc][0]})
+			g.handles = append(g.handles, gHandle{"imppub"})
+		}
+		return []Op{{Op: "importpub", Scope: sc, Key: k}}
+	case 20: // import a witness / taproot script, secret or public
+		var out []Op
+		if r.Chance(3, 5) {
+			out = append(out, doUnlock()...)
+		}
+		g.keyCtr++
+		op := Op{Op: "importwscript", Scope: sc, Script: g.keyCtr, SKind: []string{"wsh", "tr"}[r.Intn(2)], Secret: r.Chance(1, 2)}
+		out = append(out, op)
+		if !g.locked || !op.Secret {
+			g.scripts = append(g.scripts, Op{Scope: sc, Root: "script", Script: op.Script, SKind: op.SKind})
+			g.handles = append(g.handles, gHandle{"script"})
+		}
+		return out
+	case 21: // change the PUBLIC passphrase; often restart and look again
+		if r.Chance(1, 5) {
+			return []Op{{Op: "chpubpass", Pass: g.pubPass + 50, NewPass: g.pubPass + 1}}
+		}
+		out := []Op{{Op: "chpubpass", Pass: g.pubPass, NewPass: g.pubPass + 1}}
+		g.pubPass++
+		if r.Chance(2, 3) {
+			g.locked, g.stuck, g.handles = true, false, nil
+			out = append(out, Op{Op: "open"})
+			if g.next[bk] > 0 {
+				t := g.target(sc, a, branch, uint32(r.Intn(int(g.next[bk]))))
+				t.Op = "lookup"
+				out = append(out, t)
+				g.handles = append(g.handles, gHandle{"chain"})
+				g.touch(a)
+			}
+		}
+		return out
+	case 22: // the edges of the count: nothing, or more than an account can hold
+		switch r.Intn(4) {
+		case 0:
+			return []Op{{Op: "next", Scope: sc, Account: a.num, Internal: internal, N: 0}}
+		case 1:
+			g.touch(a)
+			return []Op{{Op: "next", Scope: sc, Account: a.num, Internal: internal, N: hdoracle.HardenedStart + uint32(r.Intn(3))}}
+		case 2:
+			g.touch(a)
+			return []Op{{Op: "next", Scope: sc, Account: a.num, Internal: internal, N: hdoracle.HardenedStart - g.next[bk]}}
+		default:
+			g.touch(a)
+			return []Op{{Op: "extend", Scope: sc, Account: a.num, Internal: internal, N: hdoracle.HardenedStart + uint32(r.Intn(3))}}
+		}
+	case 23: // a hardened branch and/or index through DeriveFromKeyPath(Cache)
+		var out []Op
+		if r.Chance(5, 6) {
+			out = append(out, doUnlock()...)
+		}
+		b, idx := branch, uint32(r.Intn(6))
+		if g.focus != nil && g.focus.Step == "branch" && a.num == g.focus.Account && sc == g.focus.Scope {
+			b = g.focus.Branch
+		}
+		switch r.Intn(3) {
+		case 0:
+			b += hdoracle.HardenedStart
+		case 1:
+			idx += hdoracle.HardenedStart
+		default:
+			b += hdoracle.HardenedStart
+			idx += hdoracle.HardenedStart
+		}
+		if g.focus != nil && g.focus.Step == "branch" && a.num == g.focus.Account && sc == g.focus.Scope {
+			b, idx = g.focus.Branch, idx|hdoracle.HardenedStart
+		}
+		op := Op{Op: "derive", Scope: sc, Account: a.num, AcctChild: g.acctChild(a), Branch: b, Index: idx, Fp: a.fp}
+		g.touch(a)
+		out = append(out, op)
+		if !g.locked && a.root == "seed" {
+			g.handles = append(g.handles, gHandle{"chain"})
+			if r.Chance(1, 2) {
+				c := op
+				c.Op = "derivecache"
+				out = append(out, c)
+			}
+		}
+		return out
+	case 24: // change the private passphrase, restart, unlock with the new one, look an address up and issue the next one
+		if g.stuck {
+			return nil
+		}
+		np := g.pass + 1
+		out := []Op{{Op: "chpass", Pass: g.pass, NewPass: np}, {Op: "open"}, {Op: "unlock", Pass: np}}
+		g.pass, g.locked, g.handles = np, false, nil
+		if g.next[bk] > 0 {
+			t := g.target(sc, a, branch, uint32(r.Intn(int(g.next[bk]))))
+			t.Op = "lookup"
+			out = append(out, t)
+			g.handles = append(g.handles, gHandle{"chain"})
+		}
+		if g.next[bk] <= 34 {
+			out = append(out, Op{Op: "next", Scope: sc, Account: a.num, Internal: internal, N: 1})
+			g.next[bk]++
+			g.handles = append(g.handles, gHandle{"chain"})
+		}
+		g.touch(a)
+		return out
 	}
 	return nil
 }
@@ -1725,6 +2418,15 @@ func (g *gState) genOps(tier string) []Op {
 func genCase(r *gen.R, seeds []uint64, xpubPool []int, tier string) Input {
 	in := Input{Seed: seeds[r.Intn(len(seeds))], Pass: 1}
 	g := newGState(r, in.Pass, xpubPool)
+	var foci []*divSeed
+	for i := range divergentSeeds {
+		if divergentSeeds[i].Seed == in.Seed {
+			foci = append(foci, &divergentSeeds[i])
+		}
+	}
+	if len(foci) > 0 {
+		g.focus = foci[r.Intn(len(foci))]
+	}
 	n := r.Range(10, 45)
 	for len(in.Ops) < n {
 		in.Ops = append(in.Ops, g.genOps(tier)...)
@@ -1771,30 +2473,185 @@ func scriptedCases(seed uint64) []Input {
 			{Op: "lock"}, {Op: "priv", Handle: 0}, {Op: "unlock", Pass: 1}, {Op: "priv", Handle: 0}, {Op: "script", Handle: 1}, {Op: "open"},
 			{Op: "unlock", Pass: 1}, {Op: "lookup", Scope: s84, Root: "imp", Key: 5, Fmt: hdoracle.P2WKH},
 			{Op: "lookup", Scope: s44, Root: "script", Script: 6}}},
+		// a public key imported into each of the four default scopes (while locked), looked up, restart, looked up
+		{Seed: seed, Pass: 1, Ops: []Op{{Op: "importpub", Scope: s44, Key: 1}, {Op: "importpub", Scope: s49, Key: 2}, {Op: "importpub", Scope: s84, Key: 3},
+			{Op: "importpub", Scope: s86, Key: 4}, {Op: "importpub", Scope: s84, Key: 3}, {Op: "unlock", Pass: 1}, {Op: "priv", Handle: 2},
+			{Op: "lookup", Scope: s86, Root: "imppub", Key: 4, Fmt: hdoracle.P2TR}, {Op: "open"}, {Op: "unlock", Pass: 1},
+			{Op: "lookup", Scope: s44, Root: "imppub", Key: 1, Fmt: hdoracle.P2PKH}, {Op: "lookup", Scope: s49, Root: "imppub", Key: 2, Fmt: hdoracle.NP2WKH},
+			{Op: "lookup", Scope: s84, Root: "imppub", Key: 3, Fmt: hdoracle.P2WKH}, {Op: "lookup", Scope: s86, Root: "imppub", Key: 4, Fmt: hdoracle.P2TR}}},
+		// WIFs that say "uncompressed" (keys 3, 7, 11): the address at import is the address after lock, restart, lookup
+		{Seed: seed, Pass: 1, Ops: []Op{{Op: "unlock", Pass: 1}, {Op: "importkey", Scope: s44, Key: 3}, {Op: "importkey", Scope: s84, Key: 7},
+			{Op: "importkey", Scope: s86, Key: 11}, {Op: "importkey", Scope: s44, Key: 4}, {Op: "lock"}, {Op: "unlock", Pass: 1}, {Op: "priv", Handle: 0},
+			{Op: "open"}, {Op: "lookup", Scope: s44, Root: "imp", Key: 3, Fmt: hdoracle.P2PKH}, {Op: "unlock", Pass: 1},
+			{Op: "lookup", Scope: s44, Root: "imp", Key: 3, Fmt: hdoracle.P2PKH}, {Op: "lookup", Scope: s84, Root: "imp", Key: 7, Fmt: hdoracle.P2WKH},
+			{Op: "lookup", Scope: s86, Root: "imp", Key: 11, Fmt: hdoracle.P2TR}, {Op: "lookup", Scope: s44, Root: "imp", Key: 4, Fmt: hdoracle.P2PKH},
+			{Op: "priv", Handle: 1}}},
+		// witness and taproot scripts, secret and public; lock; restart
+		{Seed: seed, Pass: 1, Ops: []Op{{Op: "importwscript", Scope: s84, Script: 21, SKind: "wsh", Secret: true},
+			{Op: "importwscript", Scope: s84, Script: 22, SKind: "wsh"}, {Op: "script", Handle: 0}, {Op: "unlock", Pass: 1},
+			{Op: "importwscript", Scope: s84, Script: 21, SKind: "wsh", Secret: true}, {Op: "importwscript", Scope: s86, Script: 23, SKind: "tr", Secret: true},
+			{Op: "importwscript", Scope: s86, Script: 24, SKind: "tr"}, {Op: "importscript", Scope: s44, Script: 21}, {Op: "lock"},
+			{Op: "script", Handle: 0}, {Op: "script", Handle: 1}, {Op: "script", Handle: 2}, {Op: "script", Handle: 3}, {Op: "open"},
+			{Op: "lookup", Scope: s84, Root: "script", Script: 22, SKind: "wsh"}, {Op: "lookup", Scope: s86, Root: "script", Script: 24, SKind: "tr"},
+			{Op: "lookup", Scope: s86, Root: "script", Script: 23, SKind: "tr"}, {Op: "unlock", Pass: 1},
+			{Op: "lookup", Scope: s84, Root: "script", Script: 21, SKind: "wsh"}, {Op: "lookup", Scope: s86, Root: "script", Script: 23, SKind: "tr"},
+			{Op: "lookup", Scope: s44, Root: "script", Script: 21}}},
+		// both passphrases changed, restart, everything derived again
+		{Seed: seed, Pass: 1, Ops: []Op{{Op: "unlock", Pass: 1}, {Op: "next", Scope: s86, N: 2}, {Op: "newacct", Scope: s49, Name: 11},
+			{Op: "next", Scope: s49, Account: 1, Internal: true, N: 2}, {Op: "chpubpass", Pass: 5, NewPass: 1}, {Op: "chpubpass", Pass: 0, NewPass: 1},
+			{Op: "chpass", Pass: 1, NewPass: 2}, {Op: "open"}, {Op: "unlock", Pass: 1}, {Op: "unlock", Pass: 2}, lk(s86, 0, 0, 1, hdoracle.P2TR),
+			lk(s49, 1, 1, 0, hdoracle.P2WKH), {Op: "next", Scope: s86, N: 1}, {Op: "next", Scope: s49, Account: 1, Internal: true, N: 1},
+			{Op: "derive", Scope: s49, Account: 1, AcctChild: hs + 1, Branch: 1, Index: 1}, {Op: "chpubpass", Pass: 1, NewPass: 2}, {Op: "open"},
+			lk(s86, 0, 0, 2, hdoracle.P2TR)}},
+		// the edges of the count, and an unknown account together with an excessive count
+		{Seed: seed, Pass: 1, Ops: []Op{{Op: "next", Scope: s84, N: 0}, {Op: "next", Scope: s84, N: 1}, {Op: "next", Scope: s84, N: hs},
+			{Op: "next", Scope: s84, N: hs - 1}, {Op: "extend", Scope: s84, N: hs}, {Op: "next", Scope: s84, Account: 9, N: hs},
+			{Op: "props", Scope: s84}, {Op: "unlock", Pass: 1}, {Op: "next", Scope: s84, Internal: true, N: 0}, {Op: "next", Scope: s84, N: 1}}},
+		// hardened branch / index requests: refused while locked, the specified key while unlocked
+		{Seed: seed, Pass: 1, Ops: []Op{{Op: "derive", Scope: s84, AcctChild: hs, Branch: hs, Index: 1}, {Op: "derive", Scope: s84, AcctChild: hs, Branch: 0, Index: hs + 1},
+			{Op: "unlock", Pass: 1}, {Op: "derive", Scope: s84, AcctChild: hs, Branch: hs, Index: 1}, {Op: "derive", Scope: s84, AcctChild: hs, Branch: 0, Index: hs + 1},
+			{Op: "derive", Scope: s44, AcctChild: hs, Branch: hs + 1, Index: hs + 2}, {Op: "derivecache", Scope: s84, AcctChild: hs, Branch: 0, Index: hs + 1},
+			{Op: "priv", Handle: 1}, {Op: "lock"}, {Op: "priv", Handle: 0}}},
 	}
 }
 
+// divergentScenario: a fixed history that walks through the hardened step below
+// the leading-zero parent d names (see divergent.go), on that seed.
+func divergentScenario(d divSeed) Input {
+	sc := d.Scope
+	hs := hdoracle.HardenedStart
+	if d.Step == "master" {
+		sc = [2]uint32{84, 0}
+	}
+	fmtOf := func(b uint32) string { return defaultSchemas[sc][b] }
+	ops := []Op{{Op: "unlock", Pass: 1}}
+	if _, ok := defaultSchemas[sc]; !ok {
+		ops = append(ops, Op{Op: "newscope", Scope: sc, Schema: []string{hdoracle.P2WKH, hdoracle.P2TR}})
+		fmtOf = func(b uint32) string { return []string{hdoracle.P2WKH, hdoracle.P2TR}[b] }
+	}
+	lk := func(a, b, i uint32) Op {
+		return Op{Op: "lookup", Scope: sc, Account: a, Branch: b, Index: i, Root: "seed", Fmt: fmtOf(b)}
+	}
+	switch d.Step {
+	case "master", "purpose", "coin":
+		// account 0 (made with the scope) and two later accounts, both branches, restart, a second scope
+		ops = append(ops, Op{Op: "next", Scope: sc, N: 2}, Op{Op: "next", Scope: sc, Internal: true, N: 1},
+			Op{Op: "newacct", Scope: sc, Name: 11}, Op{Op: "newacct", Scope: sc, Name: 12},
+			Op{Op: "next", Scope: sc, Account: 1, N: 2}, Op{Op: "next", Scope: sc, Account: 2, Internal: true, N: 1},
+			Op{Op: "lock"}, Op{Op: "next", Scope: sc, Account: 1, N: 1}, Op{Op: "open"}, Op{Op: "unlock", Pass: 1},
+			lk(0, 0, 1), lk(1, 0, 2), lk(2, 1, 0), Op{Op: "newacct", Scope: sc, Name: 13}, Op{Op: "extend", Scope: sc, Account: 3, N: 1}, lk(3, 0, 1),
+			Op{Op: "derive", Scope: sc, Account: 1, AcctChild: hs + 1, Branch: 0, Index: 7},
+			Op{Op: "derivecache", Scope: sc, Account: 2, AcctChild: hs + 2, Branch: 1, Index: 0},
+			Op{Op: "next", Scope: [2]uint32{44, 0}, N: 1}, Op{Op: "next", Scope: [2]uint32{86, 0}, N: 1})
+	case "account", "branch":
+		for a := uint32(1); a <= d.Account; a++ {
+			ops = append(ops, Op{Op: "newacct", Scope: sc, Name: 10 + int(a)})
+		}
+		ac := hs + d.Account
+		b := d.Branch
+		ops = append(ops, Op{Op: "next", Scope: sc, Account: d.Account, Internal: b == 1, N: 2},
+			Op{Op: "derive", Scope: sc, Account: d.Account, AcctChild: ac, Branch: hs + b, Index: 3},
+			Op{Op: "derive", Scope: sc, Account: d.Account, AcctChild: ac, Branch: b, Index: hs + 5},
+			Op{Op: "derive", Scope: sc, Account: d.Account, AcctChild: ac, Branch: hs + 1 - b, Index: hs},
+			Op{Op: "derivecache", Scope: sc, Account: d.Account, AcctChild: ac, Branch: b, Index: hs + 5},
+			Op{Op: "derivecache", Scope: sc, Account: d.Account, AcctChild: ac, Branch: hs + b, Index: 3},
+			Op{Op: "priv", Handle: 2}, Op{Op: "priv", Handle: 3}, Op{Op: "lock"},
+			Op{Op: "derive", Scope: sc, Account: d.Account, AcctChild: ac, Branch: b, Index: hs + 5},
+			Op{Op: "open"}, Op{Op: "unlock", Pass: 1},
+			Op{Op: "derive", Scope: sc, Account: d.Account, AcctChild: ac, Branch: b, Index: hs + 5},
+			Op{Op: "derive", Scope: sc, Account: d.Account, AcctChild: ac, Branch: hs + b, Index: 3}, lk(d.Account, b, 1))
+	}
+	return Input{Seed: d.Seed, Pass: 1, Ops: ops}
+}
+
+type job struct {
+	in       Input
+	recreate bool
+	scripted bool
+	replay   bool
+}
+
+// runJobs runs the cases with a few workers - each with its own oracle tables
+// and directory - and prints them in the order given.
+func runJobs(jobs []job, workers int, dir string, out *core.Emitter) error {
+	results := make([]Case, len(jobs))
+	next := make(chan int, len(jobs))
+	for i := range jobs {
+		next <- i
+	}
+	close(next)
+	if workers < 1 {
+		workers = 1
+	}
+	var wg sync.WaitGroup
+	for w := 0; w < workers; w++ {
+		wdir, err := os.MkdirTemp(dir, "w")
+		if err != nil {
+			return err
+		}
+		wg.Add(1)
+		go func(wdir string) {
+			defer wg.Done()
+			wo := newOracleDB()
+			for i := range next {
+				cc := runCase(wo, wdir, jobs[i].in, jobs[i].recreate)
+				if jobs[i].scripted {
+					cc.Tags = append(cc.Tags, "scripted")
+				}
+				if jobs[i].replay {
+					cc.Tags = append(cc.Tags, "replay")
+				}
+				results[i] = cc
+			}
+		}(wdir)
+	}
+	wg.Wait()
+	for _, cc := range results {
+		out.Emit(cc)
+	}
+	return nil
+}
+
 func main() {
-	core.Main("c03", nil, func(c *core.Common, out *core.Emitter) error {
+	var find, workers int
+	var emitDiv bool
+	core.Main("c03", func(fs *flag.FlagSet) {
+		fs.IntVar(&find, "find-divergent", 0, "search seed numbers 0..n-1 for leading-zero intermediate keys and print them")
+		fs.IntVar(&workers, "workers", 8, "cases run in parallel")
+		fs.BoolVar(&emitDiv, "emit-divergent", false, "print the fixed histories on the embedded leading-zero seeds ({\"in\":...} lines: corpus/C03/legacy_rule.jsonl)")
+	}, func(c *core.Common, out *core.Emitter) error {
+		if find > 0 {
+			findDivergent(find)
+			return nil
+		}
+		validateDivergent()
+		if emitDiv {
+			for _, d := range divergentSeeds {
+				out.Emit(map[string]interface{}{"in": divergentScenario(d), "note": fmt.Sprintf("leading-zero %s key, scope %v account %d branch %d", d.Step, d.Scope, d.Account, d.Branch)})
+			}
+			return nil
+		}
 		dir, err := os.MkdirTemp(tmpBase(), "vh-c03-")
 		if err != nil {
 			return err
 		}
 		defer os.RemoveAll(dir)
-		o := newOracleDB()
 		if c.Replay != "" {
-			return core.ReadReplay(c.Replay, func(raw json.RawMessage) error {
+			var jobs []job
+			err := core.ReadReplay(c.Replay, func(raw json.RawMessage) error {
 				var cs struct {
 					In Input `json:"in"`
 				}
 				if err := json.Unmarshal(raw, &cs); err != nil {
 					return err
 				}
-				cc := runCase(o, dir, cs.In, true)
-				cc.Tags = append(cc.Tags, "replay")
-				out.Emit(cc)
+				jobs = append(jobs, job{in: cs.In, recreate: true, replay: true})
 				return nil
 			})
+			if err != nil {
+				return err
+			}
+			return runJobs(jobs, workers, dir, out)
 		}
 		r := gen.New(c.Seed, 3)
 		nseeds := 5
@@ -1805,16 +2662,28 @@ func main() {
 		for i := 0; i < nseeds; i++ {
 			seeds = append(seeds, uint64(r.Int63n(1<<40)))
 		}
+		// ... plus seeds on which the two hardened-derivation rules differ: three
+		// of the embedded list per run (which ones depends on the run's seed), all
+		// of them in the thorough tier
+		pool := divergentPool()
+		if c.Tier == "thorough" {
+			seeds = append(seeds, pool...)
+		} else {
+			for i := 0; i < 3; i++ {
+				seeds = append(seeds, pool[(int(c.Seed)*3+i*7)%len(pool)])
+			}
+		}
 		xpubs := []int{r.Intn(1000), 1000 + r.Intn(1000), 2000 + r.Intn(1000)}
+		// the inputs are drawn first (one stream, so a run is a function of -seed and
+		// -n alone), then run by a few workers, each with its own oracle tables and
+		// directory; the cases are printed in the order they were drawn
+		var jobs []job
 		for i, in := range scriptedCases(seeds[0]) {
-			cc := runCase(o, dir, in, i%3 == 0)
-			cc.Tags = append(cc.Tags, "scripted")
-			out.Emit(cc)
+			jobs = append(jobs, job{in: in, recreate: i%3 == 0, scripted: true})
 		}
 		for i := 0; i < c.N; i++ {
-			in := genCase(r, seeds, xpubs, c.Tier)
-			out.Emit(runCase(o, dir, in, i%4 == 0))
+			jobs = append(jobs, job{in: genCase(r, seeds, xpubs, c.Tier), recreate: i%4 == 0})
 		}
-		return nil
+		return runJobs(jobs, workers, dir, out)
 	})
 }
